@@ -1590,7 +1590,7 @@ class AbstractUnit:
             outlets = [i for i in outs if i]
             outs[:] = ()
         else:
-           for o in outlets: outs[ins.index(o) if isinstance(o, AbstractStream) else o] = None
+           for o in outlets: outs[outs.index(o) if isinstance(o, AbstractStream) else o] = None
         if join_ends:
             if len(inlets) != len(outlets):
                 raise ValueError("number of inlets must match number of outlets to join ends")
